@@ -3,11 +3,11 @@ CONSTANTS
     Groups = {"a", "b"}
     Kinds = {"int", "float", "str", "none"}
     Values = {2}
-    Cfgs <- MCLifeQuick
-    Modes = {"batch", "stream"}
+    Cfgs <- MCAllDefault
+    Modes = {"stream"}
     MaxBatches = 3
     MaxPts = 2
-    MaxStream = 3
+    MaxStream = 4
     BuggyCache = FALSE
 INVARIANTS
     TypeOK
